@@ -11,7 +11,8 @@
 (*                                                                           *)
 (* Families (variable fam, chosen in Init; one TLC run exports all of Fams): *)
 (*  reuse  the 16 original kinds x c0..c2, probes plain / p_io / p_func      *)
-(*         (constants MaxRuns, RunKinds, RunCfgs, LastKinds, LastCfgs)       *)
+(*         (constants MaxRuns, RunKinds, RunCfgs, LastKinds, LastCfgs); the  *)
+(*         variant "ResetRand alone" only when Deep                          *)
 (*  stdin  every path a run can read its standard input through (main loop,  *)
 (*         plain getline, getline < "-", getline var < "-"), each run with   *)
 (*         its own input, followed by every path again                       *)
@@ -23,7 +24,25 @@
 (*         is cancelled by the run itself), followed by runs that are long   *)
 (*         enough to poll a context, fail with a run-time error, or start a  *)
 (*         command (system(), cmd | getline)                                 *)
-(* Deep widens the three new families (thorough tier).                       *)
+(*  range  the range pattern of the program opened and the run ended in     *)
+(*         every way (closed by a later record, open to the end of input,    *)
+(*         nextfile, getline or next in the body, exit / run-time error /    *)
+(*         cancellation inside the range), also followed by a run that never *)
+(*         reaches the main loop, then a probe whose input has a record      *)
+(*         before the start pattern                                          *)
+(*  rand   rand() / srand(n) / srand() in every order (fp() draws first; no  *)
+(*         draw at all; srand(n) before the first draw; srand(n) only;       *)
+(*         srand()), with resets before ANY run of the history (a reset      *)
+(*         followed by runs that never draw, then one that seeds first)      *)
+(*  args   per-run Args / Argv0 / Environ that differ from run to run        *)
+(*         (longer, then shorter; other keys), programs that add and delete  *)
+(*         elements of ARGV and ENVIRON; every run enumerates both arrays    *)
+(*  flags  Chars, NoExec / NoFileWrites / NoFileReads / NoArgVars switched   *)
+(*         on in one run and off in the next (and the reverse), followed by  *)
+(*         runs that write and read files and start commands                 *)
+(* mvs: the reset variants before runs that are not the last one; any: a     *)
+(* history with a reset is extended further.                                 *)
+(* Deep widens the families other than "reuse" (thorough tier).              *)
 EXTENDS Reuse, Json
 
 CONSTANT Fams, MaxRuns, RunKinds, RunCfgs, LastKinds, LastCfgs, ResetsAnywhere, Deep
@@ -31,28 +50,58 @@ CONSTANT Fams, MaxRuns, RunKinds, RunCfgs, LastKinds, LastCfgs, ResetsAnywhere, 
 StdinKinds == {"plain", "gl_plain", "gl_dash", "gl_dashvar"}
 FamDef(f) ==
   CASE f = "reuse" ->
-         [max |-> MaxRuns, rk |-> RunKinds, rc |-> RunCfgs, lk |-> LastKinds, lc |-> LastCfgs, vs |-> Variants]
+         \* (ResetRand alone is a variant of the family "rand", which holds these kinds' draws too)
+         [max |-> MaxRuns, rk |-> RunKinds, rc |-> RunCfgs, lk |-> LastKinds, lc |-> LastCfgs,
+          vs |-> IF Deep THEN Variants ELSE {"none", "vars", "both"}, mvs |-> IF Deep THEN Variants ELSE {"none", "vars", "both"}, any |-> FALSE]
     [] f = "stdin" ->
          [max |-> 3,
           rk |-> StdinKinds \cup (IF Deep THEN {"exit3", "errfunc", "cancel", "csvhdr"} ELSE {}),
           rc |-> {"c0", "c1", "c2"},
           lk |-> StdinKinds,
           lc |-> IF Deep THEN {"c0", "c1", "c2", "c3"} ELSE {"c0", "c1"},
-          vs |-> IF Deep THEN Variants ELSE {"none", "both"}]
+          vs |-> IF Deep THEN Variants ELSE {"none", "both"}, mvs |-> IF Deep THEN Variants ELSE {"none", "both"}, any |-> FALSE]
     [] f = "exit" ->
          [max |-> 3,
           rk |-> {"exit_enderr", "exitbegin", "exit_endcancel", "exit3", "plain"} \cup (IF Deep THEN {"errfunc", "p_func"} ELSE {}),
           rc |-> IF Deep THEN {"c0", "c1", "c2", "c3"} ELSE {"c0", "c1"},
           lk |-> {"plain", "p_func", "exit3"} \cup (IF Deep THEN {"exit_enderr", "gl_dash"} ELSE {}),
           lc |-> IF Deep THEN {"c0", "c1", "c4"} ELSE {"c0"},
-          vs |-> IF Deep THEN Variants ELSE {"none", "both"}]
+          vs |-> IF Deep THEN Variants ELSE {"none", "both"}, mvs |-> IF Deep THEN Variants ELSE {"none", "both"}, any |-> FALSE]
     [] f = "ctx" ->
          [max |-> 3,
           rk |-> {"plain", "cancel"} \cup (IF Deep THEN {"sys", "pipe", "p_func", "exit_endcancel", "errfunc"} ELSE {}),
           rc |-> {"c0", "c1", "c3", "c4"},
           lk |-> {"p_func", "errfunc", "sys", "pipe"},
           lc |-> IF Deep THEN {"c0", "c1", "c4"} ELSE {"c0", "c4"},
-          vs |-> IF Deep THEN Variants ELSE {"none", "both"}]
+          vs |-> IF Deep THEN Variants ELSE {"none", "both"}, mvs |-> IF Deep THEN Variants ELSE {"none", "both"}, any |-> FALSE]
+    [] f = "range" ->
+         [max |-> 3,
+          rk |-> RangeKinds \cup {"plain", "exitbegin"},
+          rc |-> IF Deep THEN {"c0", "c1", "c2"} ELSE {"c0", "c1"},
+          lk |-> {"plain", "rg_close"} \cup (IF Deep THEN {"rg_eof"} ELSE {}),
+          lc |-> IF Deep THEN {"c0", "c1", "c2"} ELSE {"c0", "c1"},
+          vs |-> IF Deep THEN Variants ELSE {"none", "both"}, mvs |-> {"none", "both"}, any |-> FALSE]
+    [] f = "rand" ->
+         [max |-> 3,
+          rk |-> {"plain", "rand", "srand5", "nr_plain", "sr_first", "sr_only", "sr_time"} \cup (IF Deep THEN {"exit3", "errfunc"} ELSE {}),
+          rc |-> {"c0"},
+          lk |-> {"plain", "rand", "srand5", "nr_plain", "sr_first", "sr_only"},
+          lc |-> IF Deep THEN {"c0", "c1"} ELSE {"c0"},
+          vs |-> Variants, mvs |-> IF Deep THEN Variants ELSE {"none", "rand"}, any |-> TRUE]
+    [] f = "args" ->
+         [max |-> 3,
+          rk |-> {"plain", "av_write", "av_del"} \cup (IF Deep THEN {"exit3", "errfunc", "gl_plain"} ELSE {}),
+          rc |-> {"c0", "c1", "c5", "c6"},
+          lk |-> {"plain", "av_del"} \cup (IF Deep THEN {"av_write", "gl_plain"} ELSE {}),
+          lc |-> {"c0", "c5", "c6"},
+          vs |-> IF Deep THEN Variants ELSE {"none", "vars", "both"}, mvs |-> IF Deep THEN Variants ELSE {"none", "vars", "both"}, any |-> FALSE]
+    [] f = "flags" ->
+         [max |-> IF Deep THEN 3 ELSE 2,
+          rk |-> {"plain", "openout", "midfile", "sys"},
+          rc |-> {"c0", "c6", "c7"},
+          lk |-> {"p_io", "midfile", "sys", "pipe", "openout"},
+          lc |-> {"c0", "c7"},
+          vs |-> {"none", "both"}, mvs |-> {"none", "both"}, any |-> FALSE]
 
 VARIABLES st, h, open, fam
 vars == <<st, h, open, fam>>
@@ -66,14 +115,14 @@ Summary(vr, kind, cfg, res) ==
 Next ==
   /\ open /\ Len(h) < FamDef(fam).max
   /\ \E fd \in {FamDef(fam)} :
-     \E vr \in (IF h = <<>> THEN {"none"} ELSE fd.vs) :    \* resets on a new interpreter are covered by "none"
+     \E vr \in (IF h = <<>> THEN {"none"} ELSE IF Len(h) + 1 = fd.max THEN fd.vs ELSE fd.mvs) :    \* resets on a new interpreter are covered by "none"
      \E kind \in (IF Len(h) + 1 = fd.max THEN fd.lk ELSE fd.rk) :
      \E cn \in (IF Len(h) + 1 = fd.max THEN fd.lc ELSE fd.rc) :
      \E cfg \in {WithTag(CfgNamed(cn), Len(h) + 1)} :
      \E ex \in {ExecSpec(ApplyVariant(st, vr), kind, cfg)} :
           /\ st' = ex.st
           /\ h' = Append(h, Summary(vr, kind, cfg, ex.res))
-          /\ open' = (ResetsAnywhere \/ vr = "none")
+          /\ open' = (ResetsAnywhere \/ fd.any \/ vr = "none")
           /\ fam' = fam
           /\ \E js \in {ToJson([fam |-> fam, runs |-> h', out |-> ex.res.out])} : Len(js) > 0 /\ PrintT(js)
 
